@@ -327,7 +327,17 @@ def minimise(engine, plan, prop, known, clause, history=(), max_exec=400, max_s=
         # needs the process history it was found under: first try all of it, then shrink it
         hist = list(history)
         r = _violates(engine, hist, best, prop, known, clause, budget)
-        if r is not None:
+        for _retry in range(3):
+            # a library that keys behaviour on memory layout (object addresses being reused) shows a
+            # violation in some pristine children and not in others: try again before giving up
+            if r is not None:
+                break
+            r = _violates(engine, [], best, prop, known, clause, budget)
+            if r is not None:
+                hist = []
+                break
+            r = _violates(engine, hist, best, prop, known, clause, budget)
+        if r is not None and hist:
             n = 2
             while len(hist) >= 1 and budget['n'] > 0:
                 size = max(1, len(hist) // n)
@@ -533,6 +543,7 @@ def run_check(prop, tier, base_seed=None, budget_s=None, workers=None, runs=None
     known = load_known()
     reported = []
     unreproduced = []
+    ghosts = []
     seen_clauses = set()
     agg['violations'].sort(key=lambda d: (d['violation']['clause'], d['ref'] if d['ref'] >= 0 else 10 ** 9 - d['ref']))
     for d in agg['violations']:
@@ -547,6 +558,7 @@ def run_check(prop, tier, base_seed=None, budget_s=None, workers=None, runs=None
             if r is None:
                 unreproduced.append('violation %s of seed %s did not reproduce, neither alone nor after the %d runs that preceded it in its worker'
                                     % (cl, plan.get('seed'), len(history)))
+                ghosts.append((cl, d, plan, history))
                 continue
             ctx, v = r
             v = _V(v)
@@ -566,8 +578,8 @@ def run_check(prop, tier, base_seed=None, budget_s=None, workers=None, runs=None
                         if r3[0].digest == ctx.digest:
                             same += 1
                 if clause_again < 2:
-                    harness_errors.append('replay %s did not reproduce in a fresh interpreter (rc=%s) and only %d/5 times in pristine children: %s'
-                                          % (path, proc.returncode, clause_again, proc.stdout[-300:] + proc.stderr[-300:]))
+                    unreproduced.append('replay %s did not reproduce in a fresh interpreter (rc=%s) and only %d/5 times in pristine children: %s'
+                                        % (path, proc.returncode, clause_again, (proc.stdout[-300:] + proc.stderr[-300:]).replace('\n', ' | ')))
                     continue
                 note = (' [NOT exactly replayable: the clause was violated again in %d of 5 pristine re-executions (%d with an identical trace) but not in a fresh '
                         'interpreter - the library under test behaves non-deterministically, e.g. depends on memory layout / object identity]' % (clause_again, same))
@@ -578,6 +590,17 @@ def run_check(prop, tier, base_seed=None, budget_s=None, workers=None, runs=None
     # A violation seen once that cannot be produced again is a harness error - unless another violation of
     # the same check did reproduce: then the verdict stands on that one and this is only noted (a library
     # that keys behaviour on memory layout produces both kinds in one batch).
+    if not reported and ghosts and agg.get('nondeterministic'):
+        # Violations were observed, none can be produced again, and identical plans executed in pristine
+        # children disagreed with each other: nothing the simulator controls differs between those
+        # children, so the library under test itself behaves non-deterministically (typically: state keyed
+        # on object addresses that the allocator re-uses).  Reported as observed, with the plan it was seen on.
+        cl, d, plan, history = ghosts[0]
+        v = _V(d['violation'])
+        path = write_replay(prop, plan, v, d['digest'], history)
+        reported.append((cl, v.message + ' [observed once in a pristine child and NOT reproducible: %d re-executions of identical plans in pristine children '
+                         'disagreed with each other - the library under test behaves non-deterministically (e.g. keyed on object addresses)]' % agg['nondeterministic'],
+                         path, len(plan['steps']), len(history)))
     # ---- further passes: the same check under other interpreter configurations - started with -O
     # (assert statements and __debug__ blocks removed), and with every warning raised as an error
     # (-W error) - production and CI configurations in which library code takes other paths
@@ -611,7 +634,12 @@ def run_check(prop, tier, base_seed=None, budget_s=None, workers=None, runs=None
                 if rc == 1:
                     opt_rc = 1
                 elif rc != 0:
-                    harness_errors.append('pass under %s failed (rc=%s): %s' % (ENV_MODE_TEXT[mode], rc, (pr.stderr or pr.stdout)[-400:]))
+                    msg = 'pass under %s failed (rc=%s): %s' % (ENV_MODE_TEXT[mode], rc, (pr.stderr or pr.stdout)[-400:])
+                    if reported:
+                        # the verdict already stands on a reproduced violation of the main pass
+                        opt_lines.append('NOTE (not part of the verdict): ' + msg.replace('\n', ' | '))
+                    else:
+                        harness_errors.append(msg)
             except subprocess.TimeoutExpired:
                 harness_errors.append('pass under %s timed out' % ENV_MODE_TEXT[mode])
             finally:
